@@ -145,7 +145,8 @@ func getWorld(sdl string) (*world, error) {
 	return w, nil
 }
 
-const maxPlansPerWorld = 512
+// almost every case has a fresh operation; the cache only serves replays, probes and TestMinimize
+const maxPlansPerWorld = 8
 
 // planTree runs the exported pipeline exactly as ExecutionEngine.Execute does.
 func (w *world) planTree(op string) *planned {
